@@ -587,3 +587,85 @@ def recursive_sccs(edges):
                 if len(comp) > 1 or v in edges.get(v, ()):
                     out.append(sorted(comp))
     return out
+
+
+# ---- re-derivation of string-slice bounds (reviewed category G2) -----------------------------------------------------------------
+
+def _pat_len(e):
+    """Byte length of a search pattern operand (char or &str literal), or None."""
+    if e[0] == "const" and isinstance(e[1], str):
+        return len(e[1].encode())
+    return None
+
+
+def _find_of(e, X):
+    """If `e` is the position found by find/rfind on (a view of) X, return the pattern length (or 0 if unknown), else None."""
+    while e[0] in ("field", "variant") or (e[0] == "call" and e[1].rsplit("::", 1)[-1] in ("unwrap_or", "unwrap_or_else", "unwrap", "expect", "unwrap_or_default") and e[2]):
+        e = e[1] if e[0] in ("field", "variant") else e[2][0]
+    if e[0] == "call" and e[1].rsplit("::", 1)[-1] in ("find", "rfind") and len(e[2]) == 2 and _strip(e[2][0]) == X:
+        return _pat_len(e[2][1]) or 0
+    return None
+
+
+def _bound_ok(b, X, guards, is_start):
+    """Is the slice bound `b` provably a char boundary <= len(X)?  Returns a reason or None."""
+    if b[0] == "const" and b[1] == 0:
+        return "0"
+    ln = _len_of(b)
+    if ln is not None and _strip(ln) == X:
+        return "len"
+    if _find_of(b, X) is not None:
+        return "find"
+    # find + k with k == byte length of the (one-byte / literal) pattern, through the checked-add tuple
+    e = b
+    if e[0] == "field" and e[1][0] == "bin":
+        e = e[1]
+    if e[0] == "bin" and e[1] in ("Add", "AddWithOverflow", "AddUnchecked"):
+        a, c = e[2], e[3]
+        if c[0] != "const":
+            a, c = c, a
+        if c[0] == "const" and isinstance(c[1], int):
+            pl = _find_of(a, X)
+            if pl is not None and pl == c[1] and pl > 0:
+                return "find+patlen"
+            inner = _bound_ok(a, X, guards, is_start)
+            if inner in ("find+patlen",) and False:
+                return None
+    if b[0] == "const" and isinstance(b[1], int) and b[1] > 0:
+        for g, truth in guards:
+            if truth and g[0] == "call" and g[1].rsplit("::", 1)[-1] == "starts_with" and len(g[2]) == 2 and _strip(g[2][0]) == X:
+                lit = g[2][1]
+                if lit[0] == "const" and isinstance(lit[1], str) and lit[1].isascii() and b[1] <= len(lit[1]):
+                    return "prefix"
+    return None
+
+
+def bound_provenance(body, s):
+    """True if every bound of the string slice at site `s` is 0, len(X), a find/rfind position on X (optionally + the pattern's byte
+    length), or a constant covered by a dominating starts_with(X, ascii literal). Otherwise an explanation."""
+    cfg = M.Cfg(body)
+    defs = roots(body)
+    c = s["call"]
+    if len(c["args"]) != 2:
+        return "not an index call"
+    X = _strip(expr(body, defs, c["args"][0]))
+    r = expr(body, defs, c["args"][1])
+    if r[0] != "agg" or "ops::range::Range" not in r[1]:
+        return f"range is not a literal range ({r[0]})"
+    kind = r[1].rsplit("::", 1)[-1]
+    bounds = list(r[2])
+    names = {"Range": ["start", "end"], "RangeFrom": ["start"], "RangeTo": ["end"], "RangeInclusive": None, "RangeToInclusive": None}.get(kind)
+    if names is None or len(names) != len(bounds):
+        return f"unsupported range kind {kind}"
+    guards = dominating_guards(cfg, body, defs, s["block"])
+    why = []
+    for nm, b in zip(names, bounds):
+        ok = _bound_ok(b, X, guards, nm == "start")
+        if ok is None:
+            return f"the {nm} bound is not derived from find/len/a matched prefix of the sliced string"
+        why.append(f"{nm}:{ok}")
+    if len(bounds) == 2 and not (why[0].endswith(":0") or why[0].endswith(":prefix")):
+        # start <= end must also hold; only the simple shapes are accepted
+        if not (why[1].endswith(":len")):
+            return "start <= end is not evident"
+    return True if True else why
